@@ -75,8 +75,9 @@ struct GenCfg {
   int max_stmts = 40;
 };
 
-static const char *VARS[] = {"x0", "x1", "x2", "a", "b", "n", "acc", "Tmp_1"};
-static const int NVARS = 8;
+// "x01" and "x1" are two variables (identifiers are compared as texts, not as numbers)
+static const char *VARS[] = {"x0", "x1", "x2", "a", "b", "n", "acc", "Tmp_1", "x01"};
+static const int NVARS = 9;
 static const char *FNAMES[] = {"f", "g", "h", "dbl", "x0"};  // a program may share its name with a variable
 
 struct Gen {
@@ -90,7 +91,7 @@ struct Gen {
   std::set<std::string> classes;
   Gen(Tape &t, GenCfg c) : t(t), cfg(c), stmts_left(c.max_stmts) {}
 
-  std::string var() { return VARS[t.weighted({6, 5, 4, 3, 3, 2, 1, 1})]; }
+  std::string var() { return VARS[t.weighted({6, 5, 4, 3, 3, 2, 1, 1, 1})]; }
   std::string var_in(const Routine *r) {
     if (r && !r->params.empty() && t.chance(1, 2)) return r->params[t.pick((unsigned)r->params.size())];
     return var();
@@ -483,8 +484,8 @@ struct Gen {
       for (auto &o : p.defs)
         if (o.name == r.name) classes.insert("redefined-program-name");
       int np = (int)t.weighted({2, 4, 3, 2, 1});
-      static const char *PN[] = {"a", "b", "n", "x1", "x0"};
-      std::vector<std::string> pool(PN, PN + 5);
+      static const char *PN[] = {"a", "b", "n", "x1", "x0", "x01"};
+      std::vector<std::string> pool(PN, PN + 6);
       for (int i = 0; i < np; i++) {
         size_t k = t.pick((unsigned)pool.size());
         r.params.push_back(pool[k]);
